@@ -28,11 +28,14 @@ def run(v):
         t=subprocess.run('go test -vet=off -count=1 '+' '.join(pk)+' ./engine ./vm',shell=True,cwd=S+'/repo',env=env,capture_output=True,text=True)
         tests='tests-pass' if t.returncode==0 else 'TESTS-FAIL'
         bad=[]
+        r=subprocess.run(['/verif/bin/vischeck','-matrix','-repo',S+'/repo','-verif',S+'/verif'],capture_output=True,text=True)
+        cur=None;lines={};codes={}
+        for l in r.stdout.splitlines():
+            if l.startswith('##PROP '): cur=l.split()[1]; lines[cur]=[]
+            elif l.startswith('##EXIT '): _,pp,c=l.split(); codes[pp]=int(c)
+            elif cur and l.startswith(('VIOLATED','UNDECIDED','VACUOUS','ERROR')): lines[cur].append(l.replace(S+'/repo/','')[:230])
         for p in props:
-            r=subprocess.run(['/verif/bin/vischeck','-p',p,'-repo',S+'/repo','-verif',S+'/verif'],capture_output=True,text=True)
-            if r.returncode!=0:
-                lines=[l.replace(S+'/repo/','')[:230] for l in r.stdout.splitlines() if l.startswith(('VIOLATED','UNDECIDED','VACUOUS','ERROR'))]
-                bad.append((p,r.returncode,lines))
+            if codes.get(p,2)!=0: bad.append((p,codes.get(p,2),lines.get(p,[])))
         return (v['id'],tests,bad)
     finally:
         shutil.rmtree(S,ignore_errors=True)
